@@ -54,7 +54,7 @@ class PrimDec(Stream):
 
     def known(self, c, o):
         cl = A.prim_classes(c['kind'], A.parse_tag(c['tag']), A.prim_value_size(c))
-        return ("C04:" + cl[0]) if cl else None
+        return A.class_key("C04", cl)
 
 
 class NgapRT(Stream):
@@ -113,7 +113,7 @@ class NgapRT(Stream):
     def known(self, c, o):
         r = self.S.root[c["root"]]
         cl = self.cls.classes(r['Type'], r['Params'], c["value"])
-        return ("C04:" + cl[0]) if cl else None
+        return A.class_key("C04", cl)
 
 
 class NgapCanon(NgapRT):
